@@ -131,9 +131,11 @@ class RunId(object):
         if self._expandend_env is not None:
             return self._expandend_env
 
-        self._expandend_env = self.benchmark.run_details.env
-        for key, value in self._expandend_env.items():
-            self._expandend_env[key] = expand_user(value, False)
+        # expand into a new dict: the configured env is shared by all runs and is
+        # part of the run's identity as recorded in the data file
+        self._expandend_env = {
+            key: expand_user(value, False)
+            for key, value in self.benchmark.run_details.env.items()}
         return self._expandend_env
 
     @property
